@@ -111,7 +111,10 @@ class FakeSnowflakeCursor:
         return describe_as_result_metadata(self.fetchall())
 
     @property
-    def description(self) -> list[ResultMetadata]:
+    def description(self) -> list[ResultMetadata] | None:
+        if self._last_sql is None:
+            # nothing has been executed yet, like the snowflake connector
+            return None
         return describe_as_result_metadata(self._describe_last_sql())
 
     def _describe_last_sql(self) -> list:
